@@ -82,6 +82,8 @@ def validate(prog, items, rep, tag, root, crate=None):
             for p_ in problems:
                 rep.violation(P, "decl|%s" % key, "declaration of %s is inconsistent: %s" % (it["name"], p_), loc="%s:%s" % (rel, it["line"]))
             nbytes = (total + 7) // 8
+            for (kind, fld, detail) in wl.type_width_problems(it):
+                rep.violation("C19.gen", "%s|%s.%s%s" % (kind, it["name"], fld, tag if tag != "#corpus" else ""), "derive accepts `%s.%s` (%s) but the generated code cannot implement it" % (it["name"], fld, detail), loc="%s:%s" % (rel, it["line"]))
             if reads:
                 b = _find_body(prog, it["name"], "EtherCrabWireRead", "unpack_from_slice", rel, it["line"], crate)
                 if b is None:
